@@ -271,8 +271,20 @@ def require(source_module, target, assignments, prefix="", target_module_name=No
     return out
 
 
-def require_vals(*args, **kwargs):
-    return [value for _, _, value in require(*args, **kwargs)]
+def require_vals(*args, names=None, **kwargs):
+    """Call `require` and return the macro objects: all that were
+    transferred, or only those with the new names `names`, in that
+    order."""
+    reqs = require(*args, **kwargs)
+    if names is None:
+        return [value for _, _, value in reqs]
+    values = {new_name: value for new_name, _, value in reqs}
+    try:
+        return [values[name] for name in names]
+    except KeyError as e:
+        raise HyRequireError(
+            "Could not require name {} from {}".format(e.args[0], args[0])
+        )
 
 
 def local_macro_name(original):
